@@ -12,23 +12,35 @@ import (
 	"fmt"
 	iofs "io/fs"
 	"os"
+	"path/filepath"
+	"sort"
 	"strconv"
 	"strings"
+	"syscall"
 	"time"
 
 	"verifharness/lib"
 
 	"github.com/thought-machine/please/src/cli"
 	"github.com/thought-machine/please/src/core"
+	plzfs "github.com/thought-machine/please/src/fs"
 )
 
 // ---------------------------------------------------------------------------------------------
 // the file system handed to the implementation
 
 type memFS struct {
-	files map[string]string
-	opens []string
+	files  map[string]string
+	faults map[string]syscall.Errno // Open of these names fails with this errno
+	opens  []string
 }
+
+// errnos an Open can fail with; ENOENT is the only one that means "there is no such file"
+var errnos = map[string]syscall.Errno{
+	"EACCES": syscall.EACCES, "EIO": syscall.EIO, "EMFILE": syscall.EMFILE, "ENFILE": syscall.ENFILE,
+	"ELOOP": syscall.ELOOP, "ENOTDIR": syscall.ENOTDIR, "ENOENT": syscall.ENOENT,
+}
+var errnoNames = []string{"EACCES", "EIO", "EMFILE", "ELOOP", "ENOTDIR", "ENFILE", "EACCES", "EIO", "ENOENT"}
 
 type memFile struct {
 	*bytes.Reader
@@ -40,6 +52,9 @@ func (f memFile) Close() error                 { return nil }
 
 func (m *memFS) Open(name string) (iofs.File, error) {
 	m.opens = append(m.opens, name)
+	if e, ok := m.faults[name]; ok {
+		return nil, &iofs.PathError{Op: "open", Path: name, Err: e}
+	}
 	if c, ok := m.files[name]; ok {
 		return memFile{bytes.NewReader([]byte(c)), name}, nil
 	}
@@ -86,6 +101,7 @@ var covLabels = id("slow", "cc", "py", "integration", "manual")
 var callerPaths = []string{"/caller/bin:/usr/bin", "/usr/local/bin:/usr/bin:/bin", "/opt/x/bin", "", "/a::/b", "/home/u/go/bin:/usr/local/go/bin:/usr/bin:/bin", ":/bin"}
 var labelVals = id("//build_defs:go", "//third_party/go:all", "///pleasings//python:requirements", "//a/b:c", "//x:y")
 var hashVals = id("sha1", "sha256", "blake3", "xxhash", "crc32", "crc64")
+var versionVals = []tv{{">=16.0.0", ">=16.0.0"}, {"17.1.0", "17.1.0"}, {">= 16.2.0", ">=16.2.0"}, {"16.5.1", "16.5.1"}, {"17.1.0", "17.1.0"}}
 var pathVals = id("/usr/local/go", "/opt/go1.22", "", "/usr/lib/go")
 
 func b2s(b bool) []string { return []string{strconv.FormatBool(b)} }
@@ -159,6 +175,14 @@ var opts = []*optSpec{
 		get: func(c *core.Configuration) []string { return b2s(c.Cpp.Coverage) }},
 	{name: "test.disablecoverage", kind: "multi", typ: "[]string", vals: covLabels, def: []string{},
 		get: func(c *core.Configuration) []string { return strs(c.Test.DisableCoverage) }},
+	// cli.Version: the value carries a flag (">=") besides the version; a later exact version must clear it
+	{name: "please.version", kind: "str", typ: "cli.Version", vals: versionVals, ovals: nil /* -o please.version is rejected: "can't override config field of type struct" */, def: []string{""},
+		get: func(c *core.Configuration) []string {
+			if !c.Please.Version.IsSet {
+				return []string{""}
+			}
+			return []string{c.Please.Version.String()}
+		}},
 }
 
 var optByName = map[string]*optSpec{}
@@ -208,6 +232,15 @@ type caseT struct {
 	Err       string     `json:"error,omitempty"`
 	Result    [][]string `json:"result,omitempty"` // per option of `opts`, in order
 	Scenario  string     `json:"scenario,omitempty"`
+	Kind      string     `json:"kind,omitempty"`   // "" = plain read, "fault" = some Open fails, "plugin" = [Plugin "x"] sections, "hostfs" = real file system
+	Faults    []faultT   `json:"faults,omitempty"` // kind fault
+	Plugin    *pluginT   `json:"plugin,omitempty"` // kind plugin
+	Host      *hostT     `json:"hostfs,omitempty"` // kind hostfs
+}
+
+type faultT struct {
+	Name  string `json:"name"`
+	Errno string `json:"errno"`
 }
 
 // render writes the assignments as gcfg text. Section headers are repeated freely, field names vary in
@@ -255,7 +288,20 @@ func render(r *lib.Rng, as []assign) string {
 // ---------------------------------------------------------------------------------------------
 // reference: the documented order and the documented layering rules, written from the property text
 
+// refGlobal: the documented global locations, every one ONCE - a location the environment names twice
+// (XDG_CONFIG_HOME=~/.config/please names the user config again) counts at its last, highest-priority mention.
 func refGlobal(e envT) []string {
+	raw := refGlobalRaw(e)
+	out := []string{}
+	for i, f := range raw {
+		if !contains(raw[i+1:], f) {
+			out = append(out, f)
+		}
+	}
+	return out
+}
+
+func refGlobalRaw(e envT) []string {
 	out := []string{"/etc/please/plzconfig"}
 	if e.XdgDirs != "" {
 		for _, p := range strings.Split(e.XdgDirs, ":") {
@@ -290,6 +336,33 @@ func refOrder(c *caseT) []string {
 	return out
 }
 
+// layerOrder: the sources in priority order.
+func layerOrder(c *caseT) []string { return refOrder(c) }
+
+// rawOrder: what the search order would be if a location named twice were read twice (the behaviour before the fix
+// 5f1c258; kept as a regression class)
+func rawOrder(c *caseT) []string {
+	out := []string{}
+	for _, f := range append(refGlobalRaw(c.Env), c.Env.Root+"/.plzconfig", c.Env.Root+"/.plzconfig_"+core.OsArch, c.Env.Root+"/.plzconfig.local") {
+		out = append(out, f)
+		for _, p := range c.Profiles {
+			out = append(out, f+"."+p)
+		}
+	}
+	return out
+}
+
+func userConfigNamedTwice(c *caseT) bool {
+	return c.Default && len(refGlobalRaw(c.Env)) != len(refGlobal(c.Env))
+}
+
+func readTwiceClass(c *caseT) string {
+	if c.Env.XdgHome == c.Env.Home+"/.config/please" {
+		return "user-config-read-twice-when-xdg-config-home-is-its-directory"
+	}
+	return "global-config-location-read-twice"
+}
+
 // layeredList: what the files (no -o) leave in a repeated option - accumulated in read order, a blank clears.
 func layeredList(c *caseT, name string) []string {
 	files := map[string][]assign{}
@@ -297,7 +370,7 @@ func layeredList(c *caseT, name string) []string {
 		files[f.Name] = f.Assigns
 	}
 	acc := []string{}
-	for _, fn := range refOrder(c) {
+	for _, fn := range layerOrder(c) {
 		for _, a := range files[fn] {
 			if a.Opt != name {
 				continue
@@ -342,7 +415,9 @@ type refResult struct {
 	byOv      bool
 }
 
-func reference(c *caseT, o *optSpec) refResult {
+func reference(c *caseT, o *optSpec) refResult { return referenceWith(c, o, layerOrder(c)) }
+
+func referenceWith(c *caseT, o *optSpec, order []string) refResult {
 	files := map[string][]assign{}
 	for _, f := range c.Files {
 		files[f.Name] = f.Assigns
@@ -361,7 +436,6 @@ func reference(c *caseT, o *optSpec) refResult {
 	if res.byOv {
 		return res
 	}
-	order := refOrder(c)
 	if !o.multi() {
 		// highest-priority source first; inside one file the last assignment
 		for i := len(order) - 1; i >= 0; i-- {
@@ -433,10 +507,21 @@ func run(c *caseT) {
 	oldPath := os.Getenv("PATH")
 	os.Setenv("PATH", c.Path)
 	defer os.Setenv("PATH", oldPath)
-	m := &memFS{files: map[string]string{}}
+	if c.Kind == "plugin" {
+		runPlugin(c)
+		return
+	}
+	if c.Kind == "hostfs" {
+		runHost(c)
+		return
+	}
+	m := &memFS{files: map[string]string{}, faults: map[string]syscall.Errno{}}
 	rr := lib.NewRng(uint64(len(c.Files))*7919 + uint64(len(c.Profiles)))
 	for _, f := range c.Files {
 		m.files[f.Name] = render(rr, f.Assigns)
+	}
+	for _, f := range c.Faults {
+		m.faults[f.Name] = errnos[f.Errno]
 	}
 	var cfg *core.Configuration
 	var err error
@@ -502,14 +587,29 @@ func coqEnv(e envT) string {
 }
 
 func coqCase(c *caseT) string {
+	if c.Kind == "plugin" {
+		return coqPluginCase(c)
+	}
 	var files string
 	if c.Default {
 		files = lib.App("Default", coqEnv(c.Env))
 	} else {
 		files = lib.App("Explicit", SList(c.Names))
 	}
+	notThere := map[string]bool{} // Open reports "does not exist": the file is absent as far as the reader can tell
+	faults := []string{}
+	for _, f := range c.Faults {
+		if f.Errno == "ENOENT" {
+			notThere[f.Name] = true
+		} else {
+			faults = append(faults, f.Name)
+		}
+	}
 	fsItems := []string{}
 	for _, f := range c.Files {
+		if notThere[f.Name] {
+			continue
+		}
 		as := []string{}
 		for _, a := range f.Assigns {
 			o := optByName[a.Opt]
@@ -538,6 +638,9 @@ func coqCase(c *caseT) string {
 		}
 		result = lib.Some(lib.List(items))
 	}
+	if c.Kind == "fault" {
+		return lib.App("CFault", S(c.Path), files, SList(c.Profiles), lib.List(fsItems), SList(faults), lib.List(ovs), SList(c.Opens), result)
+	}
 	return lib.App("CRead", S(c.Path), files, SList(c.Profiles), lib.List(fsItems), lib.List(ovs), SList(c.Opens), result)
 }
 
@@ -547,8 +650,16 @@ func coqCase(c *caseT) string {
 var profilePool = []string{"dev", "remote", "ci", "local"}
 
 func genEnv(r *lib.Rng) envT {
+	e := genEnv0(r)
+	if r.Chance(1, 10) {
+		e.XdgHome = e.Home + "/.config/please" // names ~/.config/please/plzconfig a second time
+	}
+	return e
+}
+
+func genEnv0(r *lib.Rng) envT {
 	return envT{
-		XdgDirs: lib.Pick(r, []string{"", "", "/etc/xdg", "/etc/xdg:/opt/cfg", "rel/dir:/etc/xdg", "/opt/cfg:", "::"}),
+		XdgDirs: lib.Pick(r, []string{"", "", "/etc/xdg", "/etc/xdg:/opt/cfg", "rel/dir:/etc/xdg", "/opt/cfg:", "::", "/opt/cfg:/etc/xdg:/opt/cfg"}),
 		Home:    lib.Pick(r, []string{"/home/u", "/root", "/home/u"}),
 		XdgHome: lib.Pick(r, []string{"", "", "/home/u/.xdg", "relative/.config", "/home/u/.config"}),
 		Root:    lib.Pick(r, []string{"/work/repo", "/r"}),
@@ -664,9 +775,69 @@ func covScenario(r *lib.Rng, c *caseT, cands []string) (map[string][]assign, []o
 	return content, ovs
 }
 
+// versionScenario: please.version = >=X in a lower layer, an exact version in a higher one (regression for the sticky ">=":
+// the effective value must be the exact version, without ">="), sometimes the other way round or three layers.
+func versionScenario(r *lib.Rng, c *caseT, cands []string) (map[string][]assign, []ovr) {
+	content := map[string][]assign{}
+	i := r.Intn(len(cands))
+	j := r.Intn(len(cands))
+	if i > j {
+		i, j = j, i
+	}
+	gte := lib.Pick(r, []tv{{">=16.0.0", ">=16.0.0"}, {">= 16.2.0", ">=16.2.0"}, {">=17.0.0", ">=17.0.0"}})
+	exact := lib.Pick(r, []tv{{"17.1.0", "17.1.0"}, {"16.5.1", "16.5.1"}})
+	lo, hi := gte, exact
+	if r.Chance(1, 5) {
+		lo, hi = exact, gte
+	}
+	content[cands[i]] = append(content[cands[i]], assign{Opt: "please.version", Text: lo.text, Canon: lo.canon})
+	content[cands[j]] = append(content[cands[j]], assign{Opt: "please.version", Text: hi.text, Canon: hi.canon})
+	if r.Chance(1, 4) {
+		k := r.Intn(len(cands))
+		v := lib.Pick(r, versionVals)
+		content[cands[k]] = append(content[cands[k]], assign{Opt: "please.version", Text: v.text, Canon: v.canon})
+	}
+	return content, []ovr{}
+}
+
+// genFault: a plain case in which the Open of one (rarely two) of the config locations fails. Mostly a location that
+// exists and sets something; ENOENT is the one errno that legitimately means "not there".
+func genFault(r *lib.Rng) *caseT {
+	c := generate(r)
+	c.Kind = "fault"
+	order := refOrder(c)
+	existing := []string{}
+	inOrder := map[string]bool{}
+	for _, n := range order {
+		inOrder[n] = true
+	}
+	for _, f := range c.Files {
+		if inOrder[f.Name] && len(f.Assigns) > 0 {
+			existing = append(existing, f.Name)
+		}
+	}
+	n := 1
+	if r.Chance(1, 8) {
+		n = 2
+	}
+	seen := map[string]bool{}
+	for i := 0; i < n; i++ {
+		name := lib.Pick(r, order)
+		if len(existing) > 0 && !r.Chance(1, 4) {
+			name = lib.Pick(r, existing)
+		}
+		if seen[name] {
+			continue
+		}
+		seen[name] = true
+		c.Faults = append(c.Faults, faultT{Name: name, Errno: lib.Pick(r, errnoNames)})
+	}
+	return c
+}
+
 func generate(r *lib.Rng) *caseT {
 	c := &caseT{Default: !r.Chance(1, 5), Env: genEnv(r), Path: lib.Pick(r, callerPaths)}
-	scenario := lib.Pick(r, []string{"", "", "", "", "", "", "", "path", "path", "cov"})
+	scenario := lib.Pick(r, []string{"", "", "", "", "", "", "", "", "", "", "", "", "", "", "path", "path", "path", "path", "cov", "cov", "version"})
 	c.Scenario = scenario
 	np := lib.Pick(r, []int{0, 0, 1, 1, 1, 2})
 	pp := append([]string{}, profilePool...)
@@ -721,9 +892,12 @@ func generate(r *lib.Rng) *caseT {
 	var scenOvs []ovr
 	if scenario != "" {
 		var sc map[string][]assign
-		if scenario == "path" {
+		switch scenario {
+		case "path":
 			sc, scenOvs = pathScenario(r, c, cands)
-		} else {
+		case "version":
+			sc, scenOvs = versionScenario(r, c, cands)
+		default:
 			sc, scenOvs = covScenario(r, c, cands)
 		}
 		for f, as := range sc {
@@ -790,7 +964,7 @@ func generate(r *lib.Rng) *caseT {
 			}
 			t := strings.Join(parts, ",")
 			c.Overrides = append(c.Overrides, ovr{Opt: o.name, Text: t, Canon: t})
-		} else {
+		} else if len(o.ovals) > 0 {
 			v := lib.Pick(r, o.ovals)
 			c.Overrides = append(c.Overrides, ovr{Opt: o.name, Text: v.text, Canon: v.canon})
 		}
@@ -845,10 +1019,59 @@ func settersOf(c *caseT, o *optSpec) int {
 
 func oracle(c *lib.Ctx, cs *caseT) {
 	js := cs
+	if cs.Kind == "plugin" {
+		oraclePlugin(c, cs)
+		return
+	}
+	if cs.Kind == "hostfs" {
+		oracleHost(c, cs)
+		return
+	}
+	// 0. a location that exists but cannot be opened must make the read fail: a configuration computed as if that layer
+	// were not there is never the documented one
+	if len(cs.Faults) > 0 {
+		c.Oracle()
+		inOrder := map[string]bool{}
+		for _, n := range refOrder(cs) {
+			inOrder[n] = true
+		}
+		for _, f := range cs.Faults {
+			if f.Errno != "ENOENT" && inOrder[f.Name] && cs.Err == "" {
+				c.Fail("unopenable-layer-silently-skipped", fmt.Sprintf("open(%s) fails with %s, but the read reports no error and returns a configuration computed without that layer", f.Name, f.Errno), js)
+				return
+			}
+		}
+		if cs.Err == "" {
+			// only "does not exist" faults: those files are absent
+			gone := map[string]bool{}
+			for _, f := range cs.Faults {
+				gone[f.Name] = true
+			}
+			cp := *cs
+			cp.Files = nil
+			for _, f := range cs.Files {
+				if !gone[f.Name] {
+					cp.Files = append(cp.Files, f)
+				}
+			}
+			cp.Faults = nil
+			cp.Kind = ""
+			js = cs
+			csNoFault := cp
+			oracleValues(c, &csNoFault, js)
+			return
+		}
+	}
+	oracleValues(c, cs, js)
+}
+
+func oracleValues(c *lib.Ctx, cs *caseT, js *caseT) {
 	// 1. order of the sources
 	c.Oracle()
 	want := refOrder(cs)
-	if cs.Err == "" && !eqs(cs.Opens, want) {
+	if cs.Err == "" && !eqs(cs.Opens, want) && userConfigNamedTwice(cs) && eqs(cs.Opens, rawOrder(cs)) {
+		c.Fail(readTwiceClass(cs), fmt.Sprintf("a global config location the environment names twice is opened twice: %v; every location is one source: %v", cs.Opens, want), js)
+	} else if cs.Err == "" && !eqs(cs.Opens, want) {
 		class := "file-order"
 		if len(cs.Opens) == len(want) {
 			class = "profile-file-not-right-after-its-file"
@@ -891,6 +1114,15 @@ func oracle(c *lib.Ctx, cs *caseT) {
 		got := cs.Result[i]
 		if eqs(got, ref.vals) {
 			continue
+		}
+		if userConfigNamedTwice(cs) {
+			// the user config is one source; the search order names it twice and it is read (and accumulated) twice
+			refD := referenceWith(cs, o, rawOrder(cs))
+			if !eqs(refD.vals, ref.vals) && eqs(got, refD.vals) && eqs(cs.Opens, rawOrder(cs)) {
+				c.Fail(readTwiceClass(cs),
+					fmt.Sprintf("%s: the environment (XDG_CONFIG_HOME=%q XDG_CONFIG_DIRS=%q) names a global config location twice; its entries are accumulated twice: %q, one application gives %q", o.name, cs.Env.XdgHome, cs.Env.XdgDirs, got, ref.vals), js)
+				continue
+			}
 		}
 		class, what := "", ""
 		def := docDefault(cs, o)
@@ -941,6 +1173,418 @@ func oracle(c *lib.Ctx, cs *caseT) {
 	}
 }
 
+// ---------------------------------------------------------------------------------------------
+// [Plugin "x"] sections. Keys of a plugin section are case-insensitive; the value of an option is the one from the
+// highest-priority file that sets it, however that file and the lower ones capitalise the key.
+
+type passign struct {
+	Plugin string `json:"plugin"`
+	Key    string `json:"key"` // as written in the file
+	Value  string `json:"value"`
+}
+
+type pfileT struct {
+	Name    string    `json:"name"`
+	Assigns []passign `json:"assigns"`
+}
+
+type pvalT struct {
+	Set  bool     `json:"set"`
+	Vals []string `json:"vals,omitempty"`
+}
+
+type pluginT struct {
+	Files       []pfileT    `json:"files"`
+	Queries     [][2]string `json:"queries"`    // (plugin, lower-case key)
+	Repeatable  []string    `json:"repeatable"` // plugin.key of the options the plugin declares repeatable
+	Reads       int         `json:"reads"`      // the read is repeated: Go's map iteration order varies between runs
+	Results     []pvalT     `json:"results,omitempty"`
+	Varied      []string    `json:"varied,omitempty"` // queries whose value was not the same on every read, with the values seen
+	TwoSpelling bool        `json:"two_spellings,omitempty"`
+}
+
+var pluginNames = []string{"go", "cc", "python"}
+var pluginKeys = map[string][]string{
+	"go":     {"gotool", "importpath", "cgoenabled", "ldflags"},
+	"cc":     {"cctool", "defaultoptcflags", "coverage"},
+	"python": {"defaultinterpreter", "pipflags", "moduledir"},
+}
+var repeatableKeys = map[string]bool{"go.ldflags": true, "cc.defaultoptcflags": true, "python.pipflags": true}
+
+// spellings of one lower-case key: as is, Capitalised, CamelCase-ish, UPPER
+func spell(r *lib.Rng, key string) string {
+	switch r.Intn(5) {
+	case 0, 1:
+		return key
+	case 2:
+		return strings.ToUpper(key[:1]) + key[1:]
+	case 3:
+		b := []byte(key)
+		b[0] = byte(strings.ToUpper(key[:1])[0])
+		k := 1 + r.Intn(len(b)-1)
+		b[k] = byte(strings.ToUpper(string(b[k]))[0])
+		return string(b)
+	}
+	return strings.ToUpper(key)
+}
+
+func renderPlugin(r *lib.Rng, as []passign) string {
+	var b strings.Builder
+	last := ""
+	for _, a := range as {
+		if a.Plugin != last || r.Chance(1, 5) {
+			fmt.Fprintf(&b, "[%s \"%s\"]\n", lib.Pick(r, []string{"Plugin", "plugin", "PLUGIN"}), a.Plugin)
+			last = a.Plugin
+		}
+		if r.Bool() {
+			fmt.Fprintf(&b, "%s = %s\n", a.Key, a.Value)
+		} else {
+			fmt.Fprintf(&b, "%s=%s\n", a.Key, a.Value)
+		}
+	}
+	return b.String()
+}
+
+func genPlugin(r *lib.Rng, twoSpellings bool) *caseT {
+	c := &caseT{Kind: "plugin", Default: !r.Chance(1, 4), Env: genEnv0(r), Path: "/usr/bin", Overrides: []ovr{}, Files: []cfgFile{}}
+	np := lib.Pick(r, []int{0, 0, 1, 1, 2})
+	pp := append([]string{}, profilePool...)
+	lib.Shuffle(r, pp)
+	c.Profiles = pp[:np]
+	if !c.Default {
+		pool := []string{"a.cfg", "conf/b.cfg", "/abs/c.cfg", "d"}
+		lib.Shuffle(r, pool)
+		c.Names = pool[:r.Range(2, 4)]
+	}
+	cands := refOrder(c)
+	pl := &pluginT{Reads: 24, TwoSpelling: twoSpellings}
+	content := map[string][]passign{}
+	nfocus := r.Range(1, 3)
+	seenQ := map[string]bool{}
+	serial := 0
+	for i := 0; i < nfocus; i++ {
+		plugin := lib.Pick(r, pluginNames)
+		key := lib.Pick(r, pluginKeys[plugin])
+		if seenQ[plugin+"."+key] {
+			continue
+		}
+		seenQ[plugin+"."+key] = true
+		pl.Queries = append(pl.Queries, [2]string{plugin, key})
+		layers := r.Range(1, 3)
+		if i == 0 {
+			layers = r.Range(2, 3) // the first focus option is always layered
+		}
+		used := map[string]bool{}
+		for l := 0; l < layers; l++ {
+			f := lib.Pick(r, cands)
+			if used[f] {
+				continue
+			}
+			used[f] = true
+			sp := spell(r, key)
+			nv := 1
+			if repeatableKeys[plugin+"."+key] && r.Chance(1, 2) {
+				nv = 2
+			}
+			for v := 0; v < nv; v++ {
+				serial++
+				content[f] = append(content[f], passign{Plugin: plugin, Key: sp, Value: fmt.Sprintf("v%d-%s", serial, filepath.Base(f))})
+			}
+			if twoSpellings && l == 0 {
+				serial++
+				other := strings.ToUpper(key)
+				if other == sp {
+					other = key
+				}
+				content[f] = append(content[f], passign{Plugin: plugin, Key: other, Value: fmt.Sprintf("v%d-other-spelling", serial)})
+			}
+		}
+		// a neighbour option of the same plugin that only one (usually a lower) layer sets: it must be kept
+		if r.Chance(1, 2) {
+			other := lib.Pick(r, pluginKeys[plugin])
+			if !seenQ[plugin+"."+other] {
+				seenQ[plugin+"."+other] = true
+				pl.Queries = append(pl.Queries, [2]string{plugin, other})
+				serial++
+				f := lib.Pick(r, cands)
+				content[f] = append(content[f], passign{Plugin: plugin, Key: spell(r, other), Value: fmt.Sprintf("v%d-only", serial)})
+			}
+		}
+	}
+	// an option nobody sets
+	if r.Chance(1, 3) {
+		pl.Queries = append(pl.Queries, [2]string{"go", "unsetoption"})
+	}
+	for _, f := range cands {
+		if as, ok := content[f]; ok {
+			dup := false
+			for _, g := range pl.Files {
+				dup = dup || g.Name == f
+			}
+			if !dup {
+				if len(as) > 1 && r.Chance(1, 3) {
+					sort.SliceStable(as, func(i, j int) bool { return as[i].Plugin < as[j].Plugin })
+				}
+				pl.Files = append(pl.Files, pfileT{Name: f, Assigns: as})
+			}
+		}
+	}
+	for k := range repeatableKeys {
+		pl.Repeatable = append(pl.Repeatable, k)
+	}
+	sort.Strings(pl.Repeatable)
+	c.Plugin = pl
+	return c
+}
+
+func setEnv(c *caseT) {
+	os.Setenv("HOME", c.Env.Home)
+	if c.Env.XdgDirs == "" {
+		os.Unsetenv("XDG_CONFIG_DIRS")
+	} else {
+		os.Setenv("XDG_CONFIG_DIRS", c.Env.XdgDirs)
+	}
+	if c.Env.XdgHome == "" {
+		os.Unsetenv("XDG_CONFIG_HOME")
+	} else {
+		os.Setenv("XDG_CONFIG_HOME", c.Env.XdgHome)
+	}
+	core.RepoRoot = c.Env.Root
+}
+
+func runPlugin(c *caseT) {
+	setEnv(c)
+	pl := c.Plugin
+	texts := map[string]string{}
+	rr := lib.NewRng(uint64(len(pl.Files))*104729 + uint64(len(c.Profiles)))
+	for _, f := range pl.Files {
+		texts[f.Name] = renderPlugin(rr, f.Assigns)
+	}
+	pl.Results, pl.Varied = nil, nil
+	c.Err = ""
+	seen := make([]map[string]bool, len(pl.Queries))
+	for i := range seen {
+		seen[i] = map[string]bool{}
+	}
+	for k := 0; k < pl.Reads; k++ {
+		m := &memFS{files: texts, faults: map[string]syscall.Errno{}}
+		var cfg *core.Configuration
+		var err error
+		if c.Default {
+			ps := make([]core.ConfigProfile, len(c.Profiles))
+			for i, p := range c.Profiles {
+				ps[i] = core.ConfigProfile(p)
+			}
+			cfg, err = core.ReadDefaultConfigFiles(m, ps)
+		} else {
+			cfg, err = core.ReadConfigFiles(m, c.Names, c.Profiles)
+		}
+		if k == 0 {
+			c.Opens = m.opens
+		}
+		if err != nil {
+			c.Err = err.Error()
+			return
+		}
+		for i, q := range pl.Queries {
+			v := pvalT{}
+			if p, ok := cfg.Plugin[q[0]]; ok && p != nil {
+				if vals, ok := p.ExtraValues[q[1]]; ok {
+					v = pvalT{Set: true, Vals: strs(vals)}
+				}
+			}
+			if k == 0 {
+				pl.Results = append(pl.Results, v)
+			}
+			seen[i][fmt.Sprintf("%v %q", v.Set, v.Vals)] = true
+		}
+	}
+	for i, q := range pl.Queries {
+		if len(seen[i]) > 1 {
+			pl.Varied = append(pl.Varied, fmt.Sprintf("%s.%s: %v", q[0], q[1], lib.SortedKeys(seen[i])))
+		}
+	}
+}
+
+func coqPluginCase(c *caseT) string {
+	var files string
+	if c.Default {
+		files = lib.App("Default", coqEnv(c.Env))
+	} else {
+		files = lib.App("Explicit", SList(c.Names))
+	}
+	pl := c.Plugin
+	fsItems := []string{}
+	for _, f := range pl.Files {
+		as := []string{}
+		for _, a := range f.Assigns {
+			as = append(as, lib.Pair(lib.Pair(S(a.Plugin), S(a.Key)), S(a.Value)))
+		}
+		fsItems = append(fsItems, lib.Pair(S(f.Name), lib.List(as)))
+	}
+	qs, rs := []string{}, []string{}
+	for i, q := range pl.Queries {
+		qs = append(qs, lib.Pair(S(q[0]), S(q[1])))
+		if i < len(pl.Results) && pl.Results[i].Set {
+			rs = append(rs, lib.Some(SList(pl.Results[i].Vals)))
+		} else {
+			rs = append(rs, "None")
+		}
+	}
+	return lib.App("CPlugin", files, SList(c.Profiles), lib.List(fsItems), lib.List(qs), SList(c.Opens), lib.List(rs))
+}
+
+// per-layer values of one plugin option, lowest priority first (case-insensitive on the key)
+type players struct {
+	files [][]string // values per file that sets it, in priority order
+	twoSp []bool     // that file spells the key in more than one way
+}
+
+func pluginLayers(c *caseT, q [2]string) players {
+	byName := map[string][]passign{}
+	for _, f := range c.Plugin.Files {
+		byName[f.Name] = f.Assigns
+	}
+	out := players{}
+	for _, n := range layerOrder(c) {
+		vals := []string{}
+		sp := map[string]bool{}
+		for _, a := range byName[n] {
+			if a.Plugin == q[0] && strings.ToLower(a.Key) == q[1] {
+				vals = append(vals, a.Value)
+				sp[a.Key] = true
+			}
+		}
+		if len(sp) > 0 {
+			out.files = append(out.files, vals)
+			out.twoSp = append(out.twoSp, len(sp) > 1)
+		}
+	}
+	return out
+}
+
+func oraclePlugin(c *lib.Ctx, cs *caseT) {
+	pl := cs.Plugin
+	c.Oracle()
+	if cs.Err != "" {
+		c.Fail("plugin-config-read-error", "reading well-formed plugin sections failed: "+cs.Err, cs)
+		return
+	}
+	if want := refOrder(cs); !eqs(cs.Opens, want) {
+		c.Fail("file-order", fmt.Sprintf("files opened in order %v, documented order is %v", cs.Opens, want), cs)
+	}
+	varied := map[string]string{}
+	for _, v := range pl.Varied {
+		name, _, _ := strings.Cut(v, ":")
+		varied[name] = v
+	}
+	for i, q := range pl.Queries {
+		c.Oracle()
+		name := q[0] + "." + q[1]
+		ls := pluginLayers(cs, q)
+		got := pl.Results[i]
+		topTwo := len(ls.twoSp) > 0 && ls.twoSp[len(ls.twoSp)-1]
+		// documented value
+		want := pvalT{}
+		if len(ls.files) > 0 {
+			want.Set = true
+			if repeatableKeys[name] {
+				for _, f := range ls.files {
+					want.Vals = append(want.Vals, f...)
+				}
+			} else {
+				want.Vals = ls.files[len(ls.files)-1]
+			}
+		}
+		if v, ok := varied[name]; ok {
+			if topTwo {
+				c.Fail("plugin-key-spelled-two-ways-in-one-file-map-order", "the highest-priority file that sets the option spells its key in two ways; which spelling's values survive varies from read to read: "+v, cs)
+			} else {
+				c.Fail("plugin-option-value-depends-on-map-iteration-order", fmt.Sprintf("the same files read %d times give different values: %s; documented: %q", pl.Reads, v, want.Vals), cs)
+			}
+			continue
+		}
+		if got.Set == want.Set && eqs(got.Vals, want.Vals) {
+			continue
+		}
+		top := []string{}
+		if len(ls.files) > 0 {
+			top = ls.files[len(ls.files)-1]
+		}
+		fromLower := false
+		for _, f := range ls.files[:max(len(ls.files)-1, 0)] {
+			fromLower = fromLower || eqs(got.Vals, f)
+		}
+		class := "plugin-option-wrong"
+		switch {
+		case topTwo:
+			class = "plugin-key-spelled-two-ways-in-one-file-map-order"
+		case repeatableKeys[name] && len(ls.files) > 1 && got.Set && eqs(got.Vals, top):
+			class = "plugin-repeated-option-replaced-by-higher-layer"
+		case got.Set && len(ls.files) > 1 && fromLower:
+			class = "plugin-option-not-from-highest-priority-file"
+		case want.Set && !got.Set:
+			class = "plugin-option-lost"
+		}
+		c.Fail(class, fmt.Sprintf("plugin option %s: implementation gives %v %q, the documented layering gives %q (per-layer values, lowest priority first: %q)", name, got.Set, got.Vals, want.Vals, ls.files), cs)
+	}
+}
+
+// ---------------------------------------------------------------------------------------------
+// the real file system: a config location that is there but cannot be opened
+
+type hostT struct {
+	Shape string `json:"shape"` // symlink-cycle | parent-is-a-file | dangling-symlink | two-link-cycle
+	Lang  string `json:"build_lang,omitempty"`
+}
+
+var hostShapes = []string{"symlink-cycle", "parent-is-a-file", "dangling-symlink", "two-link-cycle"}
+var hostDir string
+
+func runHost(c *caseT) {
+	dir, err := os.MkdirTemp(hostDir, "c39host")
+	if err != nil {
+		panic(err)
+	}
+	defer os.RemoveAll(dir)
+	base := filepath.Join(dir, ".plzconfig")
+	local := filepath.Join(dir, ".plzconfig.local")
+	names := []string{base, filepath.Join(dir, ".plzconfig_none"), local}
+	os.WriteFile(base, []byte("[build]\nlang = from_plzconfig\n"), 0o644)
+	switch c.Host.Shape {
+	case "symlink-cycle":
+		os.Symlink(".plzconfig.local", local)
+	case "two-link-cycle":
+		os.Symlink(".plzconfig.other", local)
+		os.Symlink(".plzconfig.local", filepath.Join(dir, ".plzconfig.other"))
+	case "parent-is-a-file":
+		names[2] = filepath.Join(base, "local.cfg") // .plzconfig is a regular file, not a directory
+	case "dangling-symlink":
+		os.Symlink("nowhere", local) // open reports ENOENT: this one really is not there
+	}
+	cfg, err := core.ReadConfigFiles(plzfs.HostFS, names, nil)
+	c.Err, c.Host.Lang = "", ""
+	if err != nil {
+		c.Err = strings.ReplaceAll(err.Error(), dir, "<dir>")
+		return
+	}
+	c.Host.Lang = cfg.Build.Lang
+}
+
+func oracleHost(c *lib.Ctx, cs *caseT) {
+	c.Oracle()
+	switch cs.Host.Shape {
+	case "dangling-symlink":
+		if cs.Err != "" || cs.Host.Lang != "from_plzconfig" {
+			c.Fail("missing-file-not-ignored", fmt.Sprintf("a location whose Open reports ENOENT must be skipped: error %q, build.lang %q", cs.Err, cs.Host.Lang), cs)
+		}
+	default:
+		if cs.Err == "" {
+			c.Fail("unopenable-layer-silently-skipped", fmt.Sprintf("real file system, %s: the last config location exists but cannot be opened, yet the read reports no error (build.lang = %q from the lower layer)", cs.Host.Shape, cs.Host.Lang), cs)
+		}
+	}
+}
+
 func main() {
 	cli.InitLogging(cli.MinVerbosity)
 	for i, o := range opts {
@@ -955,14 +1599,86 @@ func main() {
 			"each set in a random subset of the candidate files with repeated values, blank resets and empty values, then -o overrides through ApplyOverrides; " +
 			"3/10 of the cases are aimed at the two cross-option rules: build.path / build.passenv / build.passunsafeenv with PATH listed, cleared again, or only given by -o, " +
 			"build.path set explicitly or not, under a varied $PATH of the caller (computed default), and cpp.coverage with test.disablecoverage. " +
-			"all 25 options are read back. distinct = distinct case JSON; non-trivial = some option has >= 2 setting sources (files in the search order or -o)")
+			"all 26 options are read back (the 26th is please.version, a cli.Version whose '>=' flag must not stick when a higher layer gives an exact version; 1/21 of the cases layer it). " +
+			"1/10 of the environments set XDG_CONFIG_HOME to ~/.config/please, which names the user config twice, 1/8 of the XDG_CONFIG_DIRS repeat a directory (every location must be read once, at its last mention). " +
+			"STREAM open-fault: a plain case in which fs.Open of one or two config locations (3/4 an existing file that sets something) fails with EACCES/EIO/EMFILE/ENFILE/ELOOP/ENOTDIR (must abort the read) or ENOENT (the file is absent). " +
+			"STREAM plugin: [Plugin \"x\"] sections of 3 plugins, 1-3 focus options set in 1-3 layers (files of the search order incl. profile files), every file spelling the key in its own way (lower, Capitalised, inner capitals, UPPER), " +
+			"declared-repeatable options with two values in one file, a neighbour option only one layer sets, an option nobody sets; every case is read 24 times and all reads must agree (Go map iteration order); oracle-only: one file spelling a key in two ways. " +
+			"STREAM hostfs: the real file system through fs.HostFS - .plzconfig.local a symlink cycle (1 and 2 links), a location under a regular file (ENOTDIR), a dangling symlink (ENOENT, must be skipped). " +
+			"distinct = distinct case JSON; non-trivial = some option has >= 2 setting sources (files in the search order or -o); fault cases always; plugin cases when an option is set in >= 2 layers")
 
 		var replay caseT
 		if c.ReadReplay(&replay) {
 			run(&replay)
-			c.Case(coqCase(&replay), &replay, "replay", true)
+			if replay.Kind == "hostfs" || (replay.Kind == "plugin" && replay.Plugin.TwoSpelling) {
+				c.Eval(&replay, "replay", true)
+			} else {
+				c.Case(coqCase(&replay), &replay, "replay", true)
+			}
 			oracle(c, &replay)
 			return
+		}
+		hostDir = c.Out
+		// stream 2: an Open that fails (model cases + oracle-only)
+		nf, nfo := c.Scale(150, 3000), c.Scale(900, 9000)
+		for i := 0; i < nf+nfo; i++ {
+			cs := genFault(c.Rng.Fork())
+			run(cs)
+			data, _ := json.Marshal(cs)
+			if i < nf {
+				c.Case(coqCase(cs), cs, string(data), true)
+			} else {
+				c.Eval(cs, string(data), true)
+			}
+			oracle(c, cs)
+			c.Hist("stream", "open-fault")
+			for _, f := range cs.Faults {
+				c.Hist("fault_errno", f.Errno)
+			}
+			if cs.Err != "" {
+				c.Hist("fault_outcome", "error")
+			} else {
+				c.Hist("fault_outcome", "ok (only ENOENT faults or fault outside the order)")
+			}
+		}
+		// stream 3: [Plugin "x"] sections in several layers with mixed-case keys, every case read 24 times
+		np, npo := c.Scale(200, 4000), c.Scale(600, 6000)
+		for i := 0; i < np+npo; i++ {
+			r := c.Rng.Fork()
+			two := i >= np && r.Chance(1, 6) // one file spelling a key in two ways: the model is not deterministic there
+			cs := genPlugin(r, two)
+			run(cs)
+			data, _ := json.Marshal(cs)
+			layered := false
+			for _, q := range cs.Plugin.Queries {
+				layered = layered || len(pluginLayers(cs, q).files) >= 2
+			}
+			if i < np {
+				c.Case(coqCase(cs), cs, string(data), layered)
+			} else {
+				c.Eval(cs, string(data), layered)
+			}
+			oracle(c, cs)
+			c.Hist("stream", "plugin")
+			c.Hist("plugin_layered", fmt.Sprint(layered))
+			c.Hist("plugin_two_spellings_in_one_file", fmt.Sprint(two))
+			for _, f := range cs.Plugin.Files {
+				for _, a := range f.Assigns {
+					if a.Key != strings.ToLower(a.Key) {
+						c.Hist("plugin_key_spelling", "has upper case")
+					} else {
+						c.Hist("plugin_key_spelling", "lower case")
+					}
+				}
+			}
+		}
+		// stream 4: the real file system
+		for i := 0; i < c.Scale(8, 40); i++ {
+			cs := &caseT{Kind: "hostfs", Host: &hostT{Shape: hostShapes[i%len(hostShapes)]}, Profiles: []string{}, Files: []cfgFile{}, Overrides: []ovr{}}
+			run(cs)
+			c.Eval(cs, "hostfs:"+cs.Host.Shape, true)
+			oracle(c, cs)
+			c.Hist("stream", "hostfs:"+cs.Host.Shape)
 		}
 		n := c.Scale(1200, 24000)
 		nOracleOnly := c.Scale(6000, 60000)
@@ -991,6 +1707,10 @@ func main() {
 			c.HistN("existing_files", len(cs.Files))
 			c.HistN("overrides", len(cs.Overrides))
 			c.Hist("scenario", "s:"+cs.Scenario)
+			c.Hist("stream", "plain")
+			if userConfigNamedTwice(cs) {
+				c.Hist("user_config_named_twice", "yes")
+			}
 			if cs.Err == "" {
 				pathSet := len(layeredList(cs, "build.path")) > 0
 				c.Hist("build.path", fmt.Sprintf("set_by_files=%v PATH_passed_through=%v", pathSet, pathPassedThrough(cs)))
